@@ -13,6 +13,6 @@ for d in checks/*/; do
     "$d/overlay.sh" ".build/$lc-overlay.json" > ".build/$lc-overlay.log" 2>&1 || { cat ".build/$lc-overlay.log"; rc=1; continue; }
     ov=(-overlay ".build/$lc-overlay.json")
   fi
-  go build "${ov[@]}" -o ".build/$lc" "./$d" || rc=1
+  go build -tags verif "${ov[@]}" -o ".build/$lc" "./$d" || rc=1
 done
 exit $rc
